@@ -245,6 +245,13 @@ func c15Bundle(c *eng.Ctx) {
 				continue
 			}
 			apps = append(apps, a)
+			// a whole slice appended at once: each of its elements must have passed validateURISAN
+			// itself, in a loop over that very slice which the append follows (an any-match test over
+			// the slice, e.g. slices.ContainsFunc, validates one element and lets the others through)
+			if els := c15sliceVals(a.Call.Args[1]); len(els) == 0 {
+				c15WholeSliceURIs(c, f, a, vals)
+				continue
+			}
 			// the element appended is the one that was validated
 			for _, el := range c15sliceVals(a.Call.Args[1]) {
 				okEl := false
@@ -347,6 +354,52 @@ func c15Bundle(c *eng.Ctx) {
 	if !bad {
 		c.OK(f, "bundle fields rewritten after the literal", P.Pos(), "only URLs and MaxPathLength (from the issuer) are set after the literal")
 	}
+}
+
+// c15WholeSliceURIs judges `URIs = append(URIs, S...)`: accepted only if f itself validates every
+// element of S (validateURISAN(S[i].String()) inside a range loop over S) and the append lies behind
+// the normal end of that loop; rejected elements never reach an append (checked by the caller).
+func c15WholeSliceURIs(c *eng.Ctx, f *ssa.Function, app *ssa.Call, vals []ssa.CallInstruction) {
+	c.Clause("R5", "C15.3")
+	site := "prov{URI SAN appended}"
+	S := app.Call.Args[1]
+	same := func(a, b ssa.Value) bool {
+		return a == b || (a != nil && b != nil && eng.ExprDeep(a) == eng.ExprDeep(b))
+	}
+	validated := false
+	for _, v := range vals {
+		sc, ok := v.Common().Args[2].(*ssa.Call)
+		if !ok || !strings.HasSuffix(eng.CalleeName(&sc.Call), "URL).String") || len(sc.Call.Args) == 0 {
+			continue
+		}
+		if base, ok := rootIndexBase(sc.Call.Args[0]); ok && same(base, S) {
+			validated = true
+		}
+	}
+	if !validated {
+		c.Violation(f, site, app.Pos(), "the URI SANs "+eng.ExprDeep(S)+" are appended as a whole slice although its elements did not each pass validateURISAN in this function: a test that is satisfied by ANY matching element lets every other URI of the CSR into the certificate unchecked", nil)
+		c.Clause("R2", "C15.3")
+		return
+	}
+	var exit []eng.Edge
+	for _, b := range f.Blocks {
+		ifi := eng.IfOf(b)
+		if ifi == nil || b.Comment != "rangeindex.loop" {
+			continue
+		}
+		if bo, ok := ifi.Cond.(*ssa.BinOp); ok {
+			if ln, ok := bo.Y.(*ssa.Call); ok && len(ln.Call.Args) == 1 && same(ln.Call.Args[0], S) {
+				exit = append(exit, eng.Edge{From: b, Succ: 1})
+			}
+		}
+	}
+	if len(exit) == 0 {
+		c.Undecided(f, site, app.Pos(), "whole-slice append of "+eng.ExprDeep(S)+": the loop validating its elements was not found (moved? the rule cannot be evaluated)")
+	} else {
+		c.Clause("R2", "C15.3")
+		c.Cut(f, "whole-slice append of validated URI SANs", []ssa.Instruction{app}, eng.Guard{Desc: "end of the loop validating every element", Edges: exit}, nil)
+	}
+	c.Clause("R2", "C15.3")
 }
 
 // ---- C15.3 (validators): accept only behind a role switch; enforcement is not bypassed
